@@ -42,6 +42,8 @@ def main():
                         import json
                         d = json.load(open(rp))
                         print("   replay:", {k: (str(d[k])[:300]) for k in d if k in ("kind", "readable", "oracle", "impl", "model", "note")})
+                        if d.get("kind") in ("harness-build", "model-build"):
+                            print("   build log tail:", str(d.get("log") or d.get("error"))[-1500:])
     finally:
         if "--keep" not in sys.argv:
             subprocess.run(["git", "-C", "/repo", "worktree", "remove", "--force", wt], capture_output=True)
